@@ -540,6 +540,11 @@ func (t *Task) verifyFunc(fn *ssa.Function, con *FuncContract) {
 				t.modelNames[v.S] = c.Name
 				t.modelSyms = append(t.modelSyms, v.S)
 			}
+		case "use":
+			// instantiate a lemma (proved separately in the same check) at the given arguments
+			if f := t.lemmaInstance(penv, c); f != "" {
+				t.assume(out.pc, f)
+			}
 		case "atexit":
 			act.ghostAssign(out, c)
 			penv = act.exprEnv(out, vars)
@@ -654,4 +659,55 @@ func (t *Task) frameCheck(act *Activation, con *FuncContract, st0, out *State) {
 		o := t.oblige("frame", oname, "", out.pc, goal, con.Src, "only the modifies clause may change "+name)
 		_ = o
 	}
+}
+
+// lemmaInstance: "use label(a, b, ...)" -> the lemma's body with its forall-bound variables replaced by the arguments.
+func (t *Task) lemmaInstance(env *ExprEnv, c Clause) string {
+	txt := strings.TrimSpace(c.Expr)
+	po := strings.Index(txt, "(")
+	if po < 0 || !strings.HasSuffix(txt, ")") {
+		t.errorf("%s: use: expected label(args)", c.Src)
+		return ""
+	}
+	label := strings.TrimSpace(txt[:po])
+	args := splitTop(txt[po+1:len(txt)-1], ',')
+	var lem *Lemma
+	for _, l := range t.eng.con.Lemmas {
+		if l.Label == label {
+			lem = l
+		}
+	}
+	if lem == nil {
+		t.errorf("%s: use: unknown lemma %s", c.Src, label)
+		return ""
+	}
+	expr := strings.TrimSpace(lem.Expr)
+	if !strings.HasPrefix(expr, "forall ") {
+		t.errorf("%s: use: lemma %s is not universally quantified", c.Src, label)
+		return ""
+	}
+	k := topLevelIndex(expr, "::")
+	binders := strings.TrimSpace(expr[len("forall "):k])
+	body := strings.TrimSpace(expr[k+2:])
+	var names []string
+	for _, b := range strings.Split(binders, ",") {
+		nm, _ := splitWord(strings.TrimSpace(b))
+		names = append(names, nm)
+	}
+	if len(names) != len(args) {
+		t.errorf("%s: use: lemma %s has %d variables, %d arguments given", c.Src, label, len(names), len(args))
+		return ""
+	}
+	n := *env
+	n.vars = map[string]Val{}
+	for kk, v := range env.vars {
+		n.vars[kk] = v
+	}
+	for i, nm := range names {
+		n.vars[nm] = env.evalSrc(strings.TrimSpace(args[i]), c.Src)
+		n.vars["$nofv:"+nm] = Val{}
+	}
+	n.pkg = lem.Pkg
+	t.assumed["lemma "+label+" (machine-checked in the same run) instantiated at "+c.Src] = true
+	return n.evalBool(body, lem.Src)
 }
